@@ -82,9 +82,26 @@ Proof.
   pose proof (pow2_pos j Hj) as PJ.
   assert (Hbl : blen (Z.abs s) = blen (Z.abs s0) + j).
   { rewrite Es, Z.abs_mul, (Z.abs_eq (2 ^ j)) by lia. apply blen_shift; lia. }
-  rewrite dlen2_blen.
-  destruct (Z.eqb_spec s0 0) as [|_]; [contradiction|]. cbn [orb].
-  destruct (Z.gtb_spec (e + j + blen (Z.abs s0)) (- (BIAS P - 1))) as [_|G]; [reflexivity | lia].
+  rewrite !dlen2_blen.
+  destruct (Z.eqb_spec s0 0) as [|_]; [contradiction|]. cbn [orb negb andb].
+  destruct (Z.gtb_spec (e + j + blen (Z.abs s0)) (TOP_MAX P + 1)) as [Hbig|_].
+  - (* the early overflow answer is what rounding + into_f32/f64_internal give *)
+    rewrite (fbig2_to_float_correct P HMB HW HB HBp HT HU HN m s0 (e + j) Hs0 ltac:(lia)).
+    unfold to_float_spec. cbv zeta. rewrite (ieee_round_dyadic f m s0 (e + j) Hs0). cbv zeta.
+    rewrite tf_emin, tf_sign, (tf_inf P HB). unfold fmt_of; cbn [prec].
+    set (top := blen (Z.abs s0) + (e + j)).
+    replace (Z.max (top - (MB P + 1)) (1 - BIAS P - MB P)) with (top - (MB P + 1)) by lia.
+    replace (MB P + 1 - 1) with (MB P) by lia.
+    pose proof (pow2_pos (MB P) ltac:(lia)) as PX.
+    assert (Hinf : forall M, inf_bits P <= (top - (MB P + 1) - (1 - BIAS P - MB P)) * 2 ^ MB P + Z.abs M).
+    { intros M. unfold inf_bits. assert (2 * BIAS P + 1 <= top - (MB P + 1) - (1 - BIAS P - MB P)) by (unfold top; lia).
+      assert ((2 * BIAS P + 1) * 2 ^ MB P <= (top - (MB P + 1) - (1 - BIAS P - MB P)) * 2 ^ MB P) by (apply Z.mul_le_mono_nonneg_r; lia).
+      lia. }
+    match goal with |- context [inf_bits P <=? ?x * 2 ^ MB P + Z.abs ?M] => destruct (Z.leb_spec (inf_bits P) (x * 2 ^ MB P + Z.abs M)) as [_|G]; [|pose proof (Hinf M); lia] end.
+    cbn [fst snd]. destruct (Z.ltb_spec s0 0) as [L|L]; cbn [flag_of_error].
+    + rewrite (Z.sgn_neg s0 L). reflexivity.
+    + rewrite (Z.sgn_pos s0) by lia. reflexivity.
+  - destruct (Z.gtb_spec (e + j + blen (Z.abs s0)) (- (BIAS P - 1))) as [_|G]; [reflexivity | lia].
 Qed.
 
 (** below the smallest normal number: one rounding at the smallest subnormal *)
@@ -101,8 +118,9 @@ Proof.
   assert (Hsg : Z.sgn s = Z.sgn s0) by (rewrite Es, Z.sgn_mul, (Z.sgn_pos (2 ^ j)) by lia; lia).
   rewrite Hsg. rewrite Es. rewrite (ieee_round_dyadic_shift f m s0 j e Hs0 Hj). clear Es Hsg.
   set (e0 := e + j) in *. assert (Hn0 : blen (Z.abs s0) + e0 <= 1 - BIAS P) by (unfold e0; lia). clearbody e0. clear Hn Hbl Hs.
-  rewrite dlen2_blen.
-  destruct (Z.eqb_spec s0 0) as [|_]; [contradiction|]. cbn [orb].
+  rewrite !dlen2_blen.
+  destruct (Z.eqb_spec s0 0) as [|_]; [contradiction|]. cbn [orb negb andb].
+  destruct (Z.gtb_spec (e0 + blen (Z.abs s0)) (TOP_MAX P + 1)) as [G|_]; [lia|].
   destruct (Z.gtb_spec (e0 + blen (Z.abs s0)) (- (BIAS P - 1))) as [G|_]; [lia|].
   set (me := - (BIAS P - 1) - MB P).
   (* the specification *)
